@@ -49,8 +49,8 @@ def coverBody (E : List Nat) : Nodes → List Nat
   | .cons _ (.cons m t) => coverBody E (.cons m t)
 end
 
-theorem classifyBody_cons2 (ctx : List String) (a m : Node) (t : Nodes) :
-    classifyBody ctx (.cons a (.cons m t)) = classifyBody ctx (.cons m t) := by
+theorem classifyBody_cons2 (sf : Bool) (ctx : List String) (a m : Node) (t : Nodes) :
+    classifyBody sf ctx (.cons a (.cons m t)) = classifyBody sf ctx (.cons m t) := by
   simp [classifyBody]
 
 /-! monotonicity of `coverSet` in the set of labels -/
@@ -129,21 +129,21 @@ theorem freeBody_sub (ctx : List String) : (ns : Nodes) → ∀ l, l ∈ freeBod
 end
 
 /-- `node.constant` in closed form -/
-def constFlag (ctx : List String) (kind : Kind) (ch : Nodes) : Bool :=
+def constFlag (sf : Bool) (ctx : List String) (kind : Kind) (ch : Nodes) : Bool :=
   match kind with
   | .const => true
   | .slice => ch.isNil
-  | .keyword => (classifyAll ctx ch).firstConst
+  | .keyword => (classifyAll sf ctx ch).firstConst
   | _ => false
 
 /-- `classify` of a node that is not a Lambda, in closed form -/
-theorem classify_eq (ctx : List String) (kind : Kind) (lab : Nat) (names : List String) (ch : Nodes) (hk : kind ≠ .lambda) :
-    classify ctx (.mk kind lab names ch) =
-      if (extFlag ctx kind names ch && !constFlag ctx kind ch) = true then
+theorem classify_eq (sf : Bool) (ctx : List String) (kind : Kind) (lab : Nat) (names : List String) (ch : Nodes) (hk : kind ≠ .lambda) :
+    classify sf ctx (.mk kind lab names ch) =
+      if (extFlag sf ctx kind names ch && !constFlag sf ctx kind ch) = true then
         { ext := true, const := false,
-          exts := ((classifyAll ctx ch).exts.filter (fun m => !ch.labs.contains m.lab)) ++
-            [{ lab := lab, demote := nonExternalizable kind, promo := (classifyAll ctx ch).promo }] }
-      else { ext := extFlag ctx kind names ch, const := constFlag ctx kind ch, exts := (classifyAll ctx ch).exts } := by
+          exts := ((classifyAll sf ctx ch).exts.filter (fun m => !ch.labs.contains m.lab)) ++
+            [{ lab := lab, demote := nonExternalizable kind, promo := (classifyAll sf ctx ch).promo }] }
+      else { ext := extFlag sf ctx kind names ch, const := constFlag sf ctx kind ch, exts := (classifyAll sf ctx ch).exts } := by
   cases kind
   case lambda => exact absurd rfl hk
   case nameLoad =>
@@ -154,37 +154,38 @@ theorem classify_eq (ctx : List String) (kind : Kind) (lab : Nat) (names : List 
     by_cases hn : ch.isNil = true
     · simp [classify, extFlag, constFlag, hn]
     · simp [classify, extFlag, constFlag, hn]
+  case starred => cases sf <;> simp [classify, extFlag, constFlag]
   all_goals simp [classify, extFlag, constFlag]
 
 /- the externals a subtree leaves are labels of that subtree -/
 mutual
-theorem exts_sub (ctx : List String) : (n : Node) → ∀ m, m ∈ (classify ctx n).exts → m.lab ∈ labsOf n
+theorem exts_sub (sf : Bool) (ctx : List String) : (n : Node) → ∀ m, m ∈ (classify sf ctx n).exts → m.lab ∈ labsOf n
   | .mk kind lab names ch, m, hm => by
     by_cases hk : kind = .lambda
     · subst hk
       simp only [classify] at hm
-      simp only [labsOf, List.mem_cons]; exact Or.inr (extsBody_sub _ ch m hm)
-    · rw [classify_eq ctx kind lab names ch hk] at hm
+      simp only [labsOf, List.mem_cons]; exact Or.inr (extsBody_sub sf _ ch m hm)
+    · rw [classify_eq sf ctx kind lab names ch hk] at hm
       have hl : labsOf (.mk kind lab names ch) = lab :: labsAll ch := by cases kind <;> simp_all [labsOf]
       rw [hl, List.mem_cons]
       split at hm
       · simp only [List.mem_append, List.mem_filter, List.mem_singleton] at hm
         rcases hm with hm | hm
-        · exact Or.inr (extsAll_sub ctx ch m hm.1)
+        · exact Or.inr (extsAll_sub sf ctx ch m hm.1)
         · subst hm; exact Or.inl rfl
-      · exact Or.inr (extsAll_sub ctx ch m hm)
-theorem extsAll_sub (ctx : List String) : (ns : Nodes) → ∀ m, m ∈ (classifyAll ctx ns).exts → m.lab ∈ labsAll ns
+      · exact Or.inr (extsAll_sub sf ctx ch m hm)
+theorem extsAll_sub (sf : Bool) (ctx : List String) : (ns : Nodes) → ∀ m, m ∈ (classifyAll sf ctx ns).exts → m.lab ∈ labsAll ns
   | .nil, m, hm => by simp [classifyAll] at hm
   | .cons n t, m, hm => by
     simp only [classifyAll, labsAll, List.mem_append] at hm ⊢
     rcases hm with hm | hm
-    · exact Or.inl (exts_sub ctx n m hm)
-    · exact Or.inr (extsAll_sub ctx t m hm)
-theorem extsBody_sub (ctx : List String) : (ns : Nodes) → ∀ m, m ∈ classifyBody ctx ns → m.lab ∈ labsBody ns
+    · exact Or.inl (exts_sub sf ctx n m hm)
+    · exact Or.inr (extsAll_sub sf ctx t m hm)
+theorem extsBody_sub (sf : Bool) (ctx : List String) : (ns : Nodes) → ∀ m, m ∈ classifyBody sf ctx ns → m.lab ∈ labsBody ns
   | .nil, m, hm => by simp [classifyBody] at hm
-  | .cons n .nil, m, hm => by simp only [classifyBody, labsBody] at hm ⊢; exact exts_sub ctx n m hm
+  | .cons n .nil, m, hm => by simp only [classifyBody, labsBody] at hm ⊢; exact exts_sub sf ctx n m hm
   | .cons a (.cons b t), m, hm => by
-    rw [classifyBody_cons2] at hm; simp only [labsBody]; exact extsBody_sub ctx (.cons b t) m hm
+    rw [classifyBody_cons2] at hm; simp only [labsBody]; exact extsBody_sub sf ctx (.cons b t) m hm
 end
 
 
@@ -219,60 +220,60 @@ theorem cover_lift_body (E : List Nat) (lab : Nat) (names : List String) (ch : N
   · exact hl
 
 /-- a subtree whose own label is among the externals it leaves is external and not constant (labels being distinct) -/
-theorem self_in_exts (ctx : List String) (n : Node) (hnd : (labsOf n).Nodup) (m : Member) (hm : m ∈ (classify ctx n).exts)
-    (hl : m.lab = n.lab) : ((classify ctx n).ext && !(classify ctx n).const) = true := by
+theorem self_in_exts (sf : Bool) (ctx : List String) (n : Node) (hnd : (labsOf n).Nodup) (m : Member) (hm : m ∈ (classify sf ctx n).exts)
+    (hl : m.lab = n.lab) : ((classify sf ctx n).ext && !(classify sf ctx n).const) = true := by
   cases n with
   | mk kind lab names ch =>
     simp only [Node.lab] at hl
     by_cases hk : kind = .lambda
     · subst hk
       simp only [classify] at hm
-      have := extsBody_sub _ ch m hm
+      have := extsBody_sub sf _ ch m hm
       simp only [labsOf, List.nodup_cons] at hnd
       rw [hl] at this; exact absurd this hnd.1
-    · rw [classify_eq ctx kind lab names ch hk] at hm ⊢
+    · rw [classify_eq sf ctx kind lab names ch hk] at hm ⊢
       split
       · rfl
       · rename_i hf
         simp only [hf] at hm
-        have := extsAll_sub ctx ch m (by simpa using hm)
+        have := extsAll_sub sf ctx ch m (by simpa using hm)
         rw [labsOf_nonlambda kind lab names ch hk, List.nodup_cons] at hnd
         rw [hl] at this; exact absurd this hnd.1
 
 
 /-- the set the demotion pass leaves for the children of a demoted node -/
-def keptOf (ctx : List String) (F : List Nat) (cs : Nodes) : List Nat :=
-  final ((classifyAll ctx cs).exts.filter (fun m => !F.contains m.lab)) ++ (classifyAll ctx cs).promo
+def keptOf (sf : Bool) (ctx : List String) (F : List Nat) (cs : Nodes) : List Nat :=
+  final ((classifyAll sf ctx cs).exts.filter (fun m => !F.contains m.lab)) ++ (classifyAll sf ctx cs).promo
 
-theorem keptOf_cons (ctx : List String) (F : List Nat) (c : Node) (t : Nodes) (x : Nat) :
-    x ∈ keptOf ctx F (.cons c t) ↔
-      x ∈ final ((classify ctx c).exts.filter (fun m => !F.contains m.lab)) ∨
-      (((classify ctx c).ext && !(classify ctx c).const) = true ∧ x = c.lab) ∨ x ∈ keptOf ctx F t := by
+theorem keptOf_cons (sf : Bool) (ctx : List String) (F : List Nat) (c : Node) (t : Nodes) (x : Nat) :
+    x ∈ keptOf sf ctx F (.cons c t) ↔
+      x ∈ final ((classify sf ctx c).exts.filter (fun m => !F.contains m.lab)) ∨
+      (((classify sf ctx c).ext && !(classify sf ctx c).const) = true ∧ x = c.lab) ∨ x ∈ keptOf sf ctx F t := by
   simp only [keptOf, classifyAll, List.filter_append, final_append, List.mem_append]
-  by_cases h : ((classify ctx c).ext && !(classify ctx c).const) = true
+  by_cases h : ((classify sf ctx c).ext && !(classify sf ctx c).const) = true
   · simp only [h, if_true, List.mem_singleton, true_and]; grind
   · simp only [h, if_false, List.not_mem_nil, false_and]; grind
 
 mutual
-theorem covNode (ctx : List String) : (n : Node) → (labsOf n).Nodup → ∀ l, l ∈ freeLeaves ctx n →
-    l ∈ coverSet (final (classify ctx n).exts) n
+theorem covNode (sf : Bool) (ctx : List String) : (n : Node) → (labsOf n).Nodup → ∀ l, l ∈ freeLeaves ctx n →
+    l ∈ coverSet (final (classify sf ctx n).exts) n
   | .mk kind lab names ch, hnd, l, hl => by
     by_cases hk : kind = .lambda
     · subst hk
       simp only [freeLeaves] at hl
       simp only [labsOf, List.nodup_cons] at hnd
       simp only [classify]
-      exact cover_lift_body _ lab names ch l (covBody (names ++ ctx) ch hnd.2 l hl)
+      exact cover_lift_body _ lab names ch l (covBody sf (names ++ ctx) ch hnd.2 l hl)
     · have hlabs := labsOf_nonlambda kind lab names ch hk
       have hnd' : (labsAll ch).Nodup := by rw [hlabs, List.nodup_cons] at hnd; exact hnd.2
-      rw [classify_eq ctx kind lab names ch hk]
-      by_cases hf : (extFlag ctx kind names ch && !constFlag ctx kind ch) = true
+      rw [classify_eq sf ctx kind lab names ch hk]
+      by_cases hf : (extFlag sf ctx kind names ch && !constFlag sf ctx kind ch) = true
       · simp only [hf, if_true]
         by_cases hd : nonExternalizable kind = true
         · -- demoted: replaced by its external children; what its other children left stays
           have hfree : l ∈ freeAll ctx ch := by
             cases kind <;> simp_all [freeLeaves, nonExternalizable]
-          have hK := covK ctx ch ch.labs hnd' (fun x _ hx => hx) l hfree
+          have hK := covK sf ctx ch ch.labs hnd' (fun x _ hx => hx) l hfree
           apply cover_lift_all _ kind lab names ch hk
           refine coverAll_mono _ _ ?_ ch l hK
           intro x hx
@@ -282,8 +283,8 @@ theorem covNode (ctx : List String) : (n : Node) → (labsOf n).Nodup → ∀ l,
           · exact Or.inl hx
           · exact Or.inr (by simp [final, finalOf, hd, hx])
         · -- stays a member itself
-          have : lab ∈ final ((classifyAll ctx ch).exts.filter (fun m => !ch.labs.contains m.lab) ++
-              [{ lab := lab, demote := nonExternalizable kind, promo := (classifyAll ctx ch).promo }]) := by
+          have : lab ∈ final ((classifyAll sf ctx ch).exts.filter (fun m => !ch.labs.contains m.lab) ++
+              [{ lab := lab, demote := nonExternalizable kind, promo := (classifyAll sf ctx ch).promo }]) := by
             simp [final, finalOf, hd]
           rw [cover_self _ _ (by simpa [Node.lab] using this)]
           exact free_sub ctx _ l hl
@@ -303,19 +304,19 @@ theorem covNode (ctx : List String) : (n : Node) → (labsOf n).Nodup → ∀ l,
                 simp
             · exact hl
           all_goals simp_all [freeLeaves]
-        exact cover_lift_all _ kind lab names ch hk l (covAll ctx ch hnd' l hfree)
-theorem covAll (ctx : List String) : (cs : Nodes) → (labsAll cs).Nodup → ∀ l, l ∈ freeAll ctx cs →
-    l ∈ coverAll (final (classifyAll ctx cs).exts) cs
+        exact cover_lift_all _ kind lab names ch hk l (covAll sf ctx ch hnd' l hfree)
+theorem covAll (sf : Bool) (ctx : List String) : (cs : Nodes) → (labsAll cs).Nodup → ∀ l, l ∈ freeAll ctx cs →
+    l ∈ coverAll (final (classifyAll sf ctx cs).exts) cs
   | .nil, _, l, hl => by simp [freeAll] at hl
   | .cons c t, hnd, l, hl => by
     simp only [labsAll, List.nodup_append] at hnd
     simp only [freeAll, List.mem_append] at hl
     simp only [classifyAll, coverAll, final_append, List.mem_append]
     rcases hl with hl | hl
-    · exact Or.inl (cover_mono _ _ (fun x hx => List.mem_append_left _ hx) c l (covNode ctx c hnd.1 l hl))
-    · exact Or.inr (coverAll_mono _ _ (fun x hx => List.mem_append_right _ hx) t l (covAll ctx t hnd.2.1 l hl))
-theorem covK (ctx : List String) : (cs : Nodes) → ∀ (F : List Nat), (labsAll cs).Nodup →
-    (∀ x, x ∈ labsAll cs → x ∈ F → x ∈ cs.labs) → ∀ l, l ∈ freeAll ctx cs → l ∈ coverAll (keptOf ctx F cs) cs
+    · exact Or.inl (cover_mono _ _ (fun x hx => List.mem_append_left _ hx) c l (covNode sf ctx c hnd.1 l hl))
+    · exact Or.inr (coverAll_mono _ _ (fun x hx => List.mem_append_right _ hx) t l (covAll sf ctx t hnd.2.1 l hl))
+theorem covK (sf : Bool) (ctx : List String) : (cs : Nodes) → ∀ (F : List Nat), (labsAll cs).Nodup →
+    (∀ x, x ∈ labsAll cs → x ∈ F → x ∈ cs.labs) → ∀ l, l ∈ freeAll ctx cs → l ∈ coverAll (keptOf sf ctx F cs) cs
   | .nil, _, _, _, l, hl => by simp [freeAll] at hl
   | .cons c t, F, hnd, hsep, l, hl => by
     simp only [labsAll, List.nodup_append] at hnd
@@ -324,49 +325,49 @@ theorem covK (ctx : List String) : (cs : Nodes) → ∀ (F : List Nat), (labsAll
     simp only [coverAll, List.mem_append]
     rcases hl with hl | hl
     · left
-      by_cases he : ((classify ctx c).ext && !(classify ctx c).const) = true
-      · have : c.lab ∈ keptOf ctx F (.cons c t) := (keptOf_cons ctx F c t c.lab).2 (Or.inr (Or.inl ⟨he, rfl⟩))
+      by_cases he : ((classify sf ctx c).ext && !(classify sf ctx c).const) = true
+      · have : c.lab ∈ keptOf sf ctx F (.cons c t) := (keptOf_cons sf ctx F c t c.lab).2 (Or.inr (Or.inl ⟨he, rfl⟩))
         rw [cover_self _ _ this]; exact free_sub ctx c l hl
-      · refine cover_mono _ _ ?_ c l (covNode ctx c hndc l hl)
+      · refine cover_mono _ _ ?_ c l (covNode sf ctx c hndc l hl)
         intro x hx
-        refine (keptOf_cons ctx F c t x).2 (Or.inl ?_)
+        refine (keptOf_cons sf ctx F c t x).2 (Or.inl ?_)
         -- nothing the child left is filtered out: its members are strictly inside it
-        have hfil : (classify ctx c).exts.filter (fun m => !F.contains m.lab) = (classify ctx c).exts := by
+        have hfil : (classify sf ctx c).exts.filter (fun m => !F.contains m.lab) = (classify sf ctx c).exts := by
           apply List.filter_eq_self.2
           intro m hm
-          have h1 := exts_sub ctx c m hm
+          have h1 := exts_sub sf ctx c m hm
           simp only [Bool.not_eq_true', List.contains_eq_mem, decide_eq_false_iff_not]
           intro hF
           have h2 := hsep m.lab (by simp only [labsAll, List.mem_append]; exact Or.inl h1) hF
           simp only [Nodes.labs, List.mem_cons] at h2
           rcases h2 with h2 | h2
-          · exact he (self_in_exts ctx c hndc m hm h2)
+          · exact he (self_in_exts sf ctx c hndc m hm h2)
           · exact hdis m.lab h1 m.lab (labs_sub_labsAll t _ h2) rfl
         rw [hfil]; exact hx
     · right
-      refine coverAll_mono _ _ ?_ t l (covK ctx t F hndt ?_ l hl)
-      · intro x hx; exact (keptOf_cons ctx F c t x).2 (Or.inr (Or.inr hx))
+      refine coverAll_mono _ _ ?_ t l (covK sf ctx t F hndt ?_ l hl)
+      · intro x hx; exact (keptOf_cons sf ctx F c t x).2 (Or.inr (Or.inr hx))
       · intro x hx hF
         have h2 := hsep x (by simp only [labsAll, List.mem_append]; exact Or.inr hx) hF
         simp only [Nodes.labs, List.mem_cons] at h2
         rcases h2 with h2 | h2
         · exact absurd rfl (hdis c.lab (lab_mem_labsOf c) x hx |> fun h => by rw [h2] at h; exact h)
         · exact h2
-theorem covBody (ctx : List String) : (cs : Nodes) → (labsBody cs).Nodup → ∀ l, l ∈ freeBody ctx cs →
-    l ∈ coverBody (final (classifyBody ctx cs)) cs
+theorem covBody (sf : Bool) (ctx : List String) : (cs : Nodes) → (labsBody cs).Nodup → ∀ l, l ∈ freeBody ctx cs →
+    l ∈ coverBody (final (classifyBody sf ctx cs)) cs
   | .nil, _, l, hl => by simp [freeBody] at hl
   | .cons n .nil, hnd, l, hl => by
     simp only [labsBody, freeBody, classifyBody, coverBody] at hnd hl ⊢
-    exact covNode ctx n hnd l hl
+    exact covNode sf ctx n hnd l hl
   | .cons a (.cons b t), hnd, l, hl => by
     simp only [labsBody, freeBody, coverBody] at hnd hl ⊢
     rw [classifyBody_cons2]
-    exact covBody ctx (.cons b t) hnd l hl
+    exact covBody sf ctx (.cons b t) hnd l hl
 end
 
 /-- every name the query does not bind lies inside a member of `PreTranslator(...).externals` -/
-theorem coverage (ctx : List String) (n : Node) (hnd : (labsOf n).Nodup) (l : Nat) (hl : l ∈ freeLeaves ctx n) :
-    l ∈ coverSet (externals ctx n) n :=
-  covNode ctx n hnd l hl
+theorem coverage (sf : Bool) (ctx : List String) (n : Node) (hnd : (labsOf n).Nodup) (l : Nat) (hl : l ∈ freeLeaves ctx n) :
+    l ∈ coverSet (externals sf ctx n) n :=
+  covNode sf ctx n hnd l hl
 
 end PonyVerif.Model.PreTrans
